@@ -219,7 +219,7 @@ def _child(spec: dict[str, Any]) -> None:
                 r, shown = ask(tr, bytes([0x27, t + 1]) + seedb)
                 lines.append(f"27{t + 1:02x}<seed> {shown}")
                 lines.append(f"STATE session={srv.state.session} level={srv.state.security_access_level}")
-                for q in (bytes.fromhex("22f186"), bytes.fromhex("3e00"), bytes([0x27, t + 1, 0]), bytes([0x27, t]), bytes([0x27, t + 1, 0xFF, 0xFF, 0xFF, 0xFF, 0xFF, 0xFF, 0xFF, 0xFF, 0xFF, 0xFF, 0xFF, 0xFF, 0xFF, 0xFF, 0xFF, 0xFF, 0xFF, 0xFF, 0xFF, 0xFF, 0xFF, 0xFF, 0xFF, 0xFF, 0xFF, 0xFF, 0xFF, 0xFF, 0xFF, 0xFF, 0xFF, 0xFF, 0xFF, 0xFF, 0xFF, 0xFF, 0xFF, 0xFF, 0xFF, 0xFF, 0xFF, 0xFF, 0xFF, 0xFF, 0xFF, 0xFF, 0xFF, 0xFF, 0xFF, 0xFF, 0xFF, 0xFF, 0xFF, 0xFF, 0xFF, 0xFF, 0xFF, 0xFF, 0xFF, 0xFF, 0xFF, 0xFF, 0xFF, 0xFF]), bytes.fromhex("1101"), bytes.fromhex("22f186"), bytes.fromhex("1001"), bytes.fromhex("22f186")):
+                for q in (bytes.fromhex("22f186"), bytes.fromhex("3e00"), bytes([0x27, t + 1, 0]), bytes([0x27, t]), bytes([0x27, t + 1]) + b"\xff" * 64, bytes.fromhex("1101"), bytes.fromhex("22f186"), bytes.fromhex("1001"), bytes.fromhex("22f186")):
                     lines.append(f"{q[:4].hex()} {ask(tr, q)[1]}")
                     lines.append(f"STATE session={srv.state.session} level={srv.state.security_access_level}")
                 name = f"security@{sess:02x}/{t:02x}"
